@@ -336,13 +336,34 @@ func (d wDiag) Source() sourcebundle.DiagSource {
 }
 func (d wDiag) ExtraInfo() interface{} { return d.extra }
 
+// wFinderB is a different Go type with exactly the same fields (and therefore
+// the same %v rendering) as wFinder: a finder "G<n>" is wFinderB{id:"F<n>"}.
+// A builder that tells finders apart by anything weaker than == confuses them.
+type wFinderB wFinder
+
+func (f wFinderB) FindDependencies(fsys fs.FS, subPath string, deps *sourcebundle.Dependencies) sourcebundle.Diagnostics {
+	return wFinder(f).find("G"+f.id[1:], fsys, subPath, deps)
+}
+
 func (f wFinder) FindDependencies(fsys fs.FS, subPath string, deps *sourcebundle.Dependencies) sourcebundle.Diagnostics {
+	return f.find(f.id, fsys, subPath, deps)
+}
+
+// newFinder maps a finder name of the world ("F1", "G1", ...) to a finder value.
+func newFinder(name string, w *World, e *env, log *callLog, flip bool) sourcebundle.DependencyFinder {
+	if strings.HasPrefix(name, "G") {
+		return wFinderB{id: "F" + name[1:], w: w, env: e, log: log, flip: flip}
+	}
+	return wFinder{id: name, w: w, env: e, log: log, flip: flip}
+}
+
+func (f wFinder) find(name string, fsys fs.FS, subPath string, deps *sourcebundle.Dependencies) sourcebundle.Diagnostics {
 	idb, err := fs.ReadFile(fsys, ".pkgid")
 	content := string(idb)
 	if err != nil {
 		content = "UNREADABLE(" + err.Error() + ")"
 	}
-	key := fmt.Sprintf("%s//%s by %s", content, subPath, f.id)
+	key := fmt.Sprintf("%s//%s by %s", content, subPath, name)
 	f.log.add("find " + key)
 	if f.env.hook != nil {
 		f.env.hook("find:enter " + key)
@@ -350,7 +371,7 @@ func (f wFinder) FindDependencies(fsys fs.FS, subPath string, deps *sourcebundle
 	}
 	var edges []WEdge
 	for _, e := range f.w.Edges {
-		if e.Content == content && e.Loc == subPath && e.Finder == f.id {
+		if e.Content == content && e.Loc == subPath && e.Finder == name {
 			edges = append(edges, e)
 		}
 	}
@@ -360,7 +381,7 @@ func (f wFinder) FindDependencies(fsys fs.FS, subPath string, deps *sourcebundle
 		}
 	}
 	for _, e := range edges {
-		tf := wFinder{id: e.TFinder, w: f.w, env: f.env, log: f.log, flip: f.flip}
+		tf := newFinder(e.TFinder, f.w, f.env, f.log, f.flip)
 		switch e.Kind {
 		case "remote":
 			src, err := sourceaddrs.ParseRemoteSource(e.Target)
@@ -775,7 +796,7 @@ func runBuild(arg BuildArg) (out BuildOut) {
 		return
 	}
 	mkFinder := func(id string) sourcebundle.DependencyFinder {
-		return wFinder{id: id, w: &w, env: e, log: log, flip: arg.Flip}
+		return newFinder(id, &w, e, log, arg.Flip)
 	}
 	failed := false
 	for ai, a := range arg.Adds {
